@@ -133,13 +133,13 @@ theorem exec_BitsOk (cfg : Cfg) (fuel : Nat) (ctx : Ctx) (sh : Sh) (s : St) : Bi
       exact BitsOk_seqM (BitsOk_pushFrame cfg ctx s) fun s1 =>
         BitsOk_seqM (BitsOk_pushChecked cfg ctx locals s1) fun s2 =>
         BitsOk_seqM (BitsOk_ticksN cfg ctx _ s2) fun s3 =>
-        BitsOk_seqM (ih ctx body s3) fun s4 => BitsOk_ok _
+        BitsOk_seqM (ih ctx body s3) fun s4 => BitsOk_seqM (BitsOk_tick cfg ctx s4) fun s5 => BitsOk_ok _
     | recur locals => exact ih ctx _ s
     | crecur => exact ih ctx _ s
     | cb k body =>
       cases k with
       | zero => exact BitsOk_ok _
-      | succ k => exact BitsOk_seqM (ih ctx _ s) (fun s => ih ctx _ s)
+      | succ k => exact BitsOk_seqM (BitsOk_tick cfg ctx s) fun s => BitsOk_seqM (ih ctx _ s) (fun s => ih ctx _ s)
     | safe body =>
       refine BitsOk_seqM (BitsOk_tick cfg ctx s) (fun s => ?_)
       simp only
@@ -265,13 +265,13 @@ theorem exec_EvOk (cfg : Cfg) (fuel : Nat) (ctx : Ctx) (sh : Sh) (s : St) : EvOk
       exact EvOk_seqM (EvOk_of_evs_eq (pushFrame_evs ..)) fun s1 =>
         EvOk_seqM (EvOk_of_evs_eq (pushChecked_evs ..)) fun s2 =>
         EvOk_seqM (EvOk_of_evs_eq (ticksN_evs ..)) fun s3 =>
-        EvOk_seqM (ih ctx body s3) fun s4 => EvOk_of_evs_eq rfl
+        EvOk_seqM (ih ctx body s3) fun s4 => EvOk_seqM (EvOk_of_evs_eq (tick_evs ..)) fun s5 => EvOk_of_evs_eq rfl
     | recur locals => exact ih ctx _ s
     | crecur => exact ih ctx _ s
     | cb k body =>
       cases k with
       | zero => exact EvOk_of_evs_eq rfl
-      | succ k => exact EvOk_seqM (ih ctx _ s) (fun s => ih ctx _ s)
+      | succ k => exact EvOk_seqM (EvOk_of_evs_eq (tick_evs ..)) fun s => EvOk_seqM (ih ctx _ s) (fun s => ih ctx _ s)
     | safe body =>
       refine EvOk_seqM (EvOk_of_evs_eq (tick_evs ..)) (fun s => ?_)
       simp only
